@@ -2,6 +2,7 @@ SPECIFICATION Spec
 CONSTANTS
   H = 4
   SampleMod = 1
+  Mode = "ops"
 CHECK_DEADLOCK FALSE
 INVARIANTS
   InvBuilt
@@ -13,4 +14,6 @@ INVARIANTS
   InvTraversal
   InvDup
   InvJudge
+  InvFastJudge
+  InvFastSame
   Emit
